@@ -1,8 +1,8 @@
 """C26 test verdicts are independent and the exit status is honest."""
 REG = dict(
     engine='E1-enum',
-    technique='exhaustive enumeration of test files (every sequence of <=3 tests over 7 test kinds) x every name filter x one- and two-file invocations, run through the real `garden test` and compared with the single-test runs',
-    text="Every sequence of 1..3 tests over 7 kinds (pass; assertion failure; exception three frames deep; exception inside nested blocks with locals; test defining locals that shadow a global function and a name another test reads; test calling the global function another test shadows; test reading a variable only another test defines) is written to a file and run with no filter, the empty filter, every substring of every test name (names are chosen so that these are exactly 6 strings selecting every 1- and 2-element subset) and a filter matching nothing (quick: 3-test files only unfiltered and one test at a time); two-file invocations split the same sequences over two files (1+1 in quick; 1+2 and 2+1 in thorough). Oracle, from the statement: exit status != 0 iff a selected test is reported failed; the summary line's total equals the number of tests whose name contains the filter and its passed/failed counts equal the reported verdicts; each test's verdict equals its verdict when run alone with `-n <its name>`.",
+    technique='exhaustive enumeration of test files (every sequence of <=3 tests over 8 test kinds) x every name filter x one- and two-file invocations, run through the real `garden test` and compared with the single-test runs',
+    text="Every sequence of 1..3 tests over 8 kinds (pass; assertion failure; exception three frames deep; exception inside nested blocks with locals; test defining locals that shadow a global function and a name another test reads; test calling the global function another test shadows; test reading a variable only another test defines) is written to a file and run with no filter, the empty filter, every substring of every test name (names are chosen so that these are exactly 6 strings selecting every 1- and 2-element subset) and a filter matching nothing (quick: 3-test files only unfiltered and one test at a time); two-file invocations split the same sequences over two files (1+1 in quick; 1+2 and 2+1 in thorough). Oracle, from the statement: exit status != 0 iff a selected test is reported failed; the summary line's total equals the number of tests whose name contains the filter and its passed/failed counts equal the reported verdicts; each test's verdict equals its verdict when run alone with `-n <its name>`.",
     note='Interrupted tests: five files with an endless test are interrupted by a real SIGINT once the test is demonstrably running; the run must exit non-zero, list the interrupted test as failed and print consistent counts. `garden test` prints only failed tests, so a passed verdict is "selected and not listed as failed". "No tests found." with exit 0 is accepted when nothing is selected. Tests hitting resource limits are not generated: `garden test` sets no limits.',
     design_ref='DESIGN.md §6 C26',
 )
@@ -14,12 +14,15 @@ from ..core import Machinery
 from .. import clijobs
 
 HELPERS = ("fun glob_fn(): Int { 1 }\n"
-           "fun e1() { e2() }\nfun e2() { e3() }\nfun e3() { throw(\"boom\") }\n")
+           "fun e1() { e2() }\nfun e2() { e3() }\nfun e3() { throw(\"boom\") }\n"
+           # the same three frames, but every frame (and the test body) still has failing work to do after the call that threw
+           "fun h1() { h2() throw(\"tail of h1\") }\nfun h2() { h3() throw(\"tail of h2\") }\nfun h3() { throw(\"boom in h3\") }\n")
 # kind -> (body, fails when run alone?)
 KINDS = {
     "pass": ("assert(1 == 1)", False),
     "assert-fail": ("assert(1 == 2)", True),
     "throw-3-deep": ("e1()", True),
+    "throw-3-deep-with-tails": ("h1()\n  assert(1 == 2)", True),
     "throw-in-blocks": ("let a = 1\n  if a == 1 {\n    let b = 2\n    while True {\n      let c = 3\n      throw(\"inner\")\n    }\n  }", True),
     "shadows-global": ("let glob_fn = fun() { 2 }\n  let leak = 5\n  assert(glob_fn() == 2)\n  assert(leak == 5)", False),
     "calls-global": ("assert(glob_fn() == 1)", False),
@@ -276,7 +279,7 @@ def run(ctx):
     for li in (0, len(layouts) // 2, len(layouts) - 1):
         files = layouts[li]
         ctx.sample({"files": [file_src(f, nms) for f, nms in zip(files, split_names(files))], "filters": [f for f in by_layout[li]], "stdout_no_filter": by_layout[li][None]["out"][-300:]})
-    return ("every sequence of 1..3 tests over 7 kinds in one file, and split over two files, x {no -n, -n '', every substring of a test name, a filter matching nothing}; `garden test` "
+    return ("every sequence of 1..3 tests over 8 kinds in one file, and split over two files, x {no -n, -n '', every substring of a test name, a filter matching nothing}; `garden test` "
             "run once per (layout, filter); verdict of each test alone taken from the `-n <name>` run of the same files. Non-trivial = layouts with at least two tests.")
 
 
